@@ -39,6 +39,8 @@ type Kernel struct {
 	E2E string
 	// RecordJen records jennifer calls as effects
 	RecordJen bool
+	// ReplayTries: native replays are repeated (properties that depend on Go's map randomisation)
+	ReplayTries int
 }
 
 // NondetRec records one nondet intrinsic call on a path.
